@@ -117,6 +117,12 @@ def check_tuples(ctx, vals, k, planes, rng, lane_pad):
             getattr(lg, pre + op)(o, *bps)
             return from_bp(o, n)[0]
         run(pre + op, bp)
+        if op in ('not', 'buf'):
+            def bp_inplace():
+                o = bps[0].copy()
+                getattr(lg, pre + op)(o, o)      # LogicSim negates in place: bp?v_not(c[o0], c[o0])
+                return from_bp(o, n)[0]
+            run(pre + op + '(in place)', bp_inplace)
         for label, got in list(results.items()):
             got = np.asarray(got)
             if got.shape != ref.shape:
